@@ -158,6 +158,20 @@ def sched_facts():
     consts = {ast.unparse(n.targets[0]): ast.literal_eval(n.value) for n in RL.body if isinstance(n, ast.Assign)}
     out.append('Definition limiter_sleeps_under_lock : bool := %s.' % ('true' if under else 'false'))
     out.append('Definition limiter_threshold_nonneg : bool := %s.' % ('true' if consts['PAUSE_THRESHOLD_SECONDS'] >= 0 else 'false'))
+    # 9. requires_auth, plain wrapper: the per-backend lock attribute is published only after the first authenticate() has returned
+    #    (Model/AuthGate.v takes the negation as its parameter); the async wrapper has the same order
+    ra = pyast.find_func(utils, 'requires_auth')
+    wrappers = [n for n in ast.walk(ra) if isinstance(n, (ast.FunctionDef, ast.AsyncFunctionDef)) and n.name == 'wrapper']
+    assert len(wrappers) == 2, 'requires_auth: async and plain wrapper expected'
+    after = True
+    for w_, attr, auth in ((wrappers[0], 'self._async_auth_lock = lock', 'await self.authenticate()'),
+                           (wrappers[1], 'self._auth_lock = lock', 'self.authenticate()')):
+        tr_ = [n for n in w_.body if isinstance(n, ast.Try)]
+        assert tr_ and isinstance(tr_[0].handlers[0].type, ast.Name) and tr_[0].handlers[0].type.id == 'AttributeError', 'first-use branch expected'
+        first_use = _ws(ast.unparse(tr_[0].handlers[0]))
+        assert first_use.count(attr) == 1 and first_use.count(auth) == 1, 'first-use branch: one authenticate, one publication'
+        after = after and first_use.index(auth) < first_use.index(attr)
+    out.append('Definition auth_lock_published_after_authenticate : bool := %s.' % ('true' if after else 'false'))
     names = [ln.split()[1] for ln in out]
     out.append('Definition all_sched_facts : bool := ' + ' && '.join(names) + '.')
     return 'From Coq Require Import Bool.\n' + '\n'.join(out) + '\n'
